@@ -1041,6 +1041,24 @@ def _strings_in(v, acc=None):
     return acc
 
 
+def newline_shape(m, t):
+    """WHERE in message m the value text t (which holds a line break) stands - the three patterns of errors.py
+    treat the positions differently:
+      value-last               the message ends with the value            ('<f>: Expected <class 'bool'>; Got <v>')
+      semicolon-before-value   some ';' precedes the value                ('<f>: <problem>; Got <v>; ...')
+      semicolon-in-value       '<f>: Got <v>; <problem>' and v itself holds a ';'  (pattern 1 stops at it)
+      got-value-first          '<f>: Got <v>; <problem>', no ';' in v: pattern 1, whose value group takes line breaks"""
+    i = m.find(t)
+    before, after = m[:i], m[i + len(t):]
+    if ";" in before:
+        return "semicolon-before-value"
+    if after.strip("'\")]}") == "":
+        return "value-last"
+    if re.fullmatch(r"[a-zA-Z0-9_.]+: Got [\[({'\"]*", before):
+        return "semicolon-in-value" if ";" in t else "got-value-first"
+    return "other"
+
+
 def taints(case, mode, ff, invalid):
     """Invalid fields whose OWN rejection message (one-field-at-a-time oracle) already breaks a clause:
     name -> (defect, oracle entry).  Each is reported once, keyed by defect and raise site; the
@@ -1068,10 +1086,14 @@ def taints(case, mode, ff, invalid):
         if not named:
             # a newline that comes from the supplied value's own text (not from the message template)
             rest = m
+            shape = None
             for t in sorted(_strings_in(case.py[n] if mode == "ctor" else case.doc[n]), key=len, reverse=True):
                 if "\n" in t:
+                    if shape is None and t in rest:
+                        shape = newline_shape(rest, t)
                     rest = rest.replace(t, "")
-            out[n] = ("helper-no-field" + ("/newline-in-value" if "\n" in m and "\n" not in rest else ""), x)
+            out[n] = ("helper-no-field" + ("/newline-in-value/%s" % (shape or "other")
+                                           if "\n" in m and "\n" not in rest else ""), x)
         elif mode == "deser" and ff and case.orc[n]["pre"] and case.orc[n]["falsy"]:
             out[n] = ("json-list-in-fail-fast", x)
     return out
